@@ -120,6 +120,25 @@ func Mixed(a int, s string, b int) (int, string) { return a*b + len(s), s + fmt.
 func Tiny() {} // shorter than the jump: must be refused
 
 //go:noinline
+func Walk(x int) int { // a leaf that is one loop whose head lies in the first 13 bytes: goom must refuse (error), not half-apply
+	n := 0
+	for x != 0 {
+		x &= x - 1
+		n++
+	}
+	return n
+}
+
+//go:noinline
+func SumTo(n int) int {
+	s := 0
+	for i := 0; i < n; i++ {
+		s += i ^ 5
+	}
+	return s
+}
+
+//go:noinline
 func Mul4(a, b, c, d int) int { return a * b * c * d } // IMULQ;IMULQ;IMULQ;RET: an instruction boundary at 12, the next at 13
 
 //go:noinline
@@ -378,6 +397,7 @@ var zoo = map[string]kase{
 	"TwinSqCube": multi1(false, 9, Sq, Cube), "TwinDblSq": multi1(true, 7, Dbl, Sq),
 	"RemockSq": remock1(Sq, 9, false, false), "RemockDbl": remock1(Dbl, 7, true, false), "RemockSameBuilderCube": remock1(Cube, 5, false, true),
 	"Big2": mk0(Big2, true),
+	"LoopHead": mk1(Walk, 0x5a5a5, false), "LoopCount": mk1(SumTo, 37, false),
 	"Mul4": {fns: []interface{}{Mul4}, plain: func() string { return fmt.Sprint(Mul4(3, 5, 7, 11)) },
 		install: func(cnt *int32) (func() string, interface{}, func()) {
 			origin := func(a, b, c, d int) int {
